@@ -1030,6 +1030,9 @@ func containsCollect(v *Val, loop int) bool {
 func valuePath(v *Val, id int, allowTrim bool, loops map[int]*Event) (ops []string, trim string, pad *Val, padIsByte bool) {
 	v = stripCT(v)
 	for {
+		if loops != nil && loops[tileBaseKey] != nil && loops[tileBaseKey].Recv != nil && v.Key() == loops[tileBaseKey].Recv.Key() {
+			return
+		}
 		switch {
 		case v.Op == "choice":
 			// alternatives computed after the same reads: every one of them must be lossless, and they must agree
@@ -1593,6 +1596,10 @@ func scanTrim(sl *Val, loops map[int]*Event) (side string, pad *Val, ok bool) {
 // forkCondsKey: pseudo loop id under which valuePath hands down the conditions of the fork an alternative comes from.
 const forkCondsKey = -1
 
+// tileBaseKey: pseudo loop id under which valuePath is told which sub-slice of a block read stands for "the bytes
+// read" (a text field cut out of a record that was read in one piece).
+const tileBaseKey = -2
+
 // scanTrimGen covers the other spellings of the boundary scan: the index tested is the loop counter plus a constant
 // (`for i := len(b)-1; i >= 0; i--` tests b[i] where the two-index form tests b[end-1]), the loop may be left from
 // inside the iteration (`if b[i] != pad { return b[:i+1] }`) and the all-pad case may be written as an explicitly
@@ -1897,10 +1904,34 @@ func verifyScan(loop *Event, W *Val, left bool) (*Val, bool) {
 		idx = &Val{Op: "binop", Name: "-", Args: []*Val{lv, mkInt(1)}}
 	}
 	el, p := stripCT(c2.Args[0]), stripCT(c2.Args[1])
+	// the boundary byte: elem(b, i), or the load of &b[i] when b has no recorded content
+	asElemV := func(v *Val) *Val {
+		if v.Op == "init" && len(v.Args) == 1 && v.Args[0].Op == "index" {
+			b := stripCT(v.Args[0].Args[0])
+			for x := b; x != nil; {
+				if x.Op == "bufnext" && len(x.Args) == 3 {
+					// a view handed out by Next: its elements are those of the bytes that read delivered
+					b = replaceVal(b, x, x.Args[2])
+					break
+				}
+				if x.Op == "slice" {
+					x = stripCT(x.Args[0])
+					continue
+				}
+				break
+			}
+			return &Val{Op: "elem", Args: []*Val{b, v.Args[0].Args[1]}, Type: v.Type}
+		}
+		return v
+	}
+	el, p = asElemV(el), asElemV(p)
 	if el.Op != "elem" {
 		el, p = p, el
 	}
-	if el.Op != "elem" || stripCT(el.Args[0]).Key() != W.Key() || !affEq(el.Args[1], idx) {
+	if os.Getenv("FPDEBUG") != "" {
+		fmt.Fprintln(os.Stderr, "verifyScan: el", el.Pretty(), "W", W.Pretty(), "idx", idx.Pretty())
+	}
+	if el.Op != "elem" || !sameElement(stripCT(el.Args[0]), el.Args[1], W, idx) {
 		return nil, false
 	}
 	if p.Contains(func(x *Val) bool { return x.Op == "wire" || x.Op == "loopvar" || x.Op == "elem" }) {
@@ -2157,4 +2188,35 @@ func manualInt(v *Val, id int, n int64) (types.Type, string, bool) {
 		it = outer
 	}
 	return it, ord, true
+}
+
+// prefixBase: the slice a prefix view b[:n] (or b[0:n]) shares its elements with, index for index.
+func prefixBase(v *Val) *Val {
+	for v != nil && v.Op == "slice" && len(v.Args) >= 3 && (v.Args[1] == nil || isZero(v.Args[1])) {
+		v = stripCT(v.Args[0])
+	}
+	return v
+}
+
+// sameElement: element i1 of b1 is element i2 of b2 – the same slice (or a prefix view of it) at the same index, or
+// views b[lo:…] of one slice at indices that differ by the views' offsets.
+func sameElement(b1, i1, b2, i2 *Val) bool {
+	off := func(v *Val) (*Val, *Affine) {
+		o := affConst(0)
+		v = stripCT(v)
+		for v != nil && v.Op == "slice" && len(v.Args) >= 3 {
+			if v.Args[1] != nil {
+				o = o.Add(affOf(v.Args[1]), 1)
+			}
+			v = stripCT(v.Args[0])
+		}
+		return v, o
+	}
+	r1, o1 := off(b1)
+	r2, o2 := off(b2)
+	if r1 == nil || r2 == nil || r1.Key() != r2.Key() || o1.Top || o2.Top {
+		return false
+	}
+	a1, a2 := o1.Add(affOf(i1), 1), o2.Add(affOf(i2), 1)
+	return !a1.Top && !a2.Top && a1.Equal(a2)
 }
